@@ -47,7 +47,18 @@ func (e *Env) RunCase(c Case) ([]Line, error) {
 	e.Srv.Register(scope, sc)
 	defer e.Srv.Unregister(scope)
 
-	inner := NewMemoryCache()
+	inner, backend := NewMemoryCache(), e.Backend
+
+	if e.RedisBackend != "" && onRedis(c.ID) {
+		r, err := NewRedisCache()
+		if err != nil {
+			return nil, fmt.Errorf("case %s: redis back end: %w", c.ID, err)
+		}
+
+		_ = inner.Stop(context.Background())
+		inner, backend = r, e.RedisBackend
+	}
+
 	defer inner.Stop(context.Background()) //nolint:errcheck
 
 	cch := NewRecCache(inner, rec)
@@ -58,7 +69,7 @@ func (e *Env) RunCase(c Case) ([]Line, error) {
 	}
 
 	start := time.Now()
-	lines := []Line{{Event: Event{Ev: "case", ID: c.ID, T: Ms(start), VHas: vHas, V: v}, C: c, Backend: e.Backend}}
+	lines := []Line{{Event: Event{Ev: "case", ID: c.ID, T: Ms(start), VHas: vHas, V: v}, C: c, Backend: backend, Store: storeName(inner)}}
 	lines = append(lines, e.request(c, rec, eval, 1)...)
 
 	if c.Seq == "waithit" {
@@ -177,4 +188,12 @@ func (e *Env) RunCases(cases []Case, w *trace.Writer, workers int) error {
 	wg.Wait()
 
 	return first
+}
+
+func storeName(c any) string {
+	if _, ok := c.(*redisBackend); ok {
+		return "redis"
+	}
+
+	return "memory"
 }
